@@ -186,6 +186,8 @@ type e2RecoverOut struct {
 	Reads    map[string]*string `json:"reads,omitempty"` // hex key -> hex value / nil
 	GetErr   string             `json:"get_err,omitempty"`
 	CloseErr string             `json:"close_err,omitempty"`
+	ContErr  string             `json:"cont_err,omitempty"`
+	Reads2   map[string]*string `json:"reads2,omitempty"` // after the fixed continuation + restart
 }
 
 func e2Recover(args []string) int {
@@ -195,6 +197,7 @@ func e2Recover(args []string) int {
 	rbuf := fs.Uint64("rbuf", 4096, "")
 	wbuf := fs.Uint64("wbuf", 4096, "")
 	hashVals := fs.Bool("hashvals", false, "report sha prefixes instead of values")
+	cont := fs.Bool("cont", false, "after the read-all: a fixed continuation (put, delete, close, open) and a second read-all")
 	_ = fs.Parse(args)
 	var out e2RecoverOut
 	db, err := simpledb.NewSimpleDB(*dir, simpledb.DisableCompactions(), simpledb.ReadBufferSizeBytes(*rbuf), simpledb.WriteBufferSizeBytes(*wbuf))
@@ -229,8 +232,51 @@ func e2Recover(args []string) int {
 		}
 		out.Reads[hk] = &hv
 	}
+	klist := strings.Split(*keys, ",")
+	if *cont && out.GetErr == "" && len(klist) >= 2 {
+		// the recovered database must also *behave* like the uninterrupted one: same fixed continuation, same answers
+		k0, _ := hex.DecodeString(klist[0])
+		k1, _ := hex.DecodeString(klist[1])
+		if err := db.PutBytes(k0, []byte("continuation-value")); err != nil {
+			out.ContErr = "put: " + err.Error()
+		}
+		if err := db.DeleteBytes(k1); err != nil && out.ContErr == "" {
+			out.ContErr = "delete: " + err.Error()
+		}
+	}
 	if err := db.Close(); err != nil {
 		out.CloseErr = err.Error()
+	}
+	if *cont && out.CloseErr == "" && out.ContErr == "" && out.GetErr == "" {
+		db2, err := simpledb.NewSimpleDB(*dir, simpledb.DisableCompactions(), simpledb.ReadBufferSizeBytes(*rbuf), simpledb.WriteBufferSizeBytes(*wbuf))
+		if err == nil {
+			err = db2.Open()
+		}
+		if err != nil {
+			out.ContErr = "reopen after continuation: " + err.Error()
+		} else {
+			out.Reads2 = map[string]*string{}
+			for _, hk := range klist {
+				if hk == "" {
+					continue
+				}
+				k, _ := hex.DecodeString(hk)
+				v, err := db2.GetBytes(k)
+				if err != nil {
+					if errors.Is(err, simpledb.ErrNotFound) {
+						out.Reads2[hk] = nil
+						continue
+					}
+					out.ContErr = fmt.Sprintf("GetBytes(%s) after continuation: %v", hk, err)
+					break
+				}
+				hv := hex.EncodeToString(v)
+				out.Reads2[hk] = &hv
+			}
+			if err := db2.Close(); err != nil && out.ContErr == "" {
+				out.ContErr = "close after continuation: " + err.Error()
+			}
+		}
 	}
 	b, _ := json.Marshal(out)
 	fmt.Println(string(b))
@@ -427,6 +473,7 @@ func errClass(msg string, dirs ...string) string {
 }
 
 type e2Job struct {
+	cont     bool // also run the fixed continuation and judge the second read-all
 	seq      int
 	variant  string // "" or "listing-order:<restored files>"
 	dir      string
@@ -485,6 +532,9 @@ func e2Judge(job e2Job, keys []string, rbuf, wbuf uint64, hashVals bool, c *fw.C
 	if hashVals {
 		args = append(args, "-hashvals")
 	}
+	if job.cont {
+		args = append(args, "-cont")
+	}
 	res := fw.RunSub("", 120, nil, filepath.Dir(job.dir), args...)
 	where := fmt.Sprintf("image #%d%s, phase %s, last completed call %s, op in flight: %s\nfiles: %s", job.seq, job.variant, job.phase, job.after, job.inflight, strings.Join(job.listing, " "))
 	tail := ""
@@ -540,10 +590,35 @@ func e2Judge(job e2Job, keys []string, rbuf, wbuf uint64, hashVals bool, c *fw.C
 		}
 		return &e2Verdict{"crash/wrong-content/" + kind + "/" + job.phase + tail, fmt.Sprintf("key %s reads %s after recovery, acknowledged state says %s on %s", showKey(k), showVal(got), showVal(job.expectA[k]), where)}
 	}
+	if job.cont {
+		// the recovered database must keep behaving like the map: fixed continuation (put keys[0], delete keys[1]), restart, read-all
+		if out.ContErr != "" {
+			return &e2Verdict{"crash/continuation-after-recovery-fails/" + errClass(out.ContErr, job.dir) + tail, fmt.Sprintf("%s on %s", out.ContErr, where)}
+		}
+		cv := hex.EncodeToString([]byte("continuation-value"))
+		for i, k := range keys {
+			got := out.Reads2[k]
+			wantA, wantAF := job.expectA[k], (*string)(nil)
+			if job.expectAF != nil {
+				wantAF = job.expectAF[k]
+			}
+			switch i {
+			case 0:
+				wantA, wantAF = &cv, &cv
+			case 1:
+				wantA, wantAF = nil, nil
+			}
+			if sameVal(got, wantA) || (job.expectAF != nil && sameVal(got, wantAF)) {
+				continue
+			}
+			return &e2Verdict{"crash/wrong-content-after-continuation/" + job.phase + tail, fmt.Sprintf("after recovery + put(%s) + delete(%s) + restart key %s reads %s, expected %s on %s", showKey(keys[0]), showKey(keys[1]), showKey(k), showVal(got), showVal(wantA), where)}
+		}
+	}
 	return nil
 }
 
 type e2Summary struct {
+	contJudged                          int
 	mutations, images, distinct, judged int
 	byPhase                             map[string]int
 	verdicts                            map[string]*e2Verdict
@@ -734,6 +809,10 @@ func e2RunSession(c *fw.Case, cfg e2Config) *e2Summary {
 			if len(st.ops) == job.minPrefix {
 				job.prefixes = append(job.prefixes, copyModel(m))
 			}
+		}
+		job.cont = cfg.mode == "sync" && !cfg.bigSync && imgNo%4 == 0
+		if job.cont {
+			sum.contJudged++
 		}
 		sum.byPhase[job.phase]++
 		jobs <- job
